@@ -193,8 +193,11 @@ def embed(rng, cdesc, grid=6, labels=None, ground=True, sym_of=None):
     pts = [(x, y) for x in range(grid) for y in range(grid)]
     rng.shuffle(pts)
     own = {}
+    bridged = {c['nodes'][0] for c in comps if c['nodes'][0] == c['nodes'][1]}     # components with both terminals on one node
     for n in nodes:
         k = rng.choice([1, 1, 1, 2, 2, 3])
+        if n in bridged:
+            k = max(k, 2)
         own[n] = [pts.pop() for _ in range(k)]
     symbols = []
     for n, ps in own.items():          # wires: a random tree over the node's points (chains and junctions)
@@ -210,7 +213,11 @@ def embed(rng, cdesc, grid=6, labels=None, ground=True, sym_of=None):
         a, b = c['nodes']
         if s.pop('_swap', False):
             a, b = b, a
-        s['p'] = list(rng.choice(own[a])); s['q'] = list(rng.choice(own[b]))
+        if a == b:
+            pa, pb = rng.sample(own[a], 2)             # drawn between two points of the same node: the wires bridge it
+            s['p'], s['q'] = list(pa), list(pb)
+        else:
+            s['p'] = list(rng.choice(own[a])); s['q'] = list(rng.choice(own[b]))
         symbols.append(s)
     g = [c for c in cdesc['components'] if c['ctor'] == 'ground']
     if g and ground:
